@@ -33,7 +33,7 @@ type c01Shape struct {
 }
 
 var c01Reqs = []string{"to", "from", "auto_crash", "auto_rofs", "manual_failover"}
-var c01Hists = []string{"equal", "behind", "tail", "gap", "errant", "far_behind"}
+var c01Hists = []string{"equal", "behind", "tail", "tail", "gap", "errant", "far_behind"}
 
 func c01Gen(seed int64, idx int) c01Shape {
 	r := rand.New(rand.NewSource(seed))
@@ -52,6 +52,12 @@ func c01Gen(seed int64, idx int) c01Shape {
 			h = c01Hists[r.Intn(len(c01Hists))]
 		}
 		sh.Hist = append(sh.Hist, h)
+	}
+	// a received-but-unapplied tail only stays one while the master keeps writing faster than the replica applies
+	for _, h := range sh.Hist {
+		if h == "tail" {
+			sh.Workload = true
+		}
 	}
 	// every 6th shape is built to be a split brain (two replicas with different errant transactions)
 	if (idx/len(c01Reqs))%6 == 5 && sh.N >= 3 {
@@ -211,6 +217,11 @@ func (m *c01Monitor) afterStmt(w *world.World, c *world.StmtCtx) {
 	if a != nil && a.frozenJudged && (c.Class == "replica_status" || c.Class == "gtid_executed") && (c.Errno != 0 || c.ReplyDropped || c.Delayed > 0) {
 		a.posFail = true
 	}
+	if a != nil && a.frozenJudged && a.roOK[c.Host] && c.Errno != 0 {
+		// a frozen member stopped answering (it died after the freeze: the connection attempt, not a position query,
+		// is what fails): the instance cannot compare positions and ends the attempt without knowing about the split
+		a.posFail = true
+	}
 	if a == nil || c.Errno != 0 || c.ReplyDropped {
 		return
 	}
@@ -256,6 +267,13 @@ func (m *c01Monitor) judgeFrozen(inst string, a *c01Attempt, snap world.Snapshot
 			}
 		}
 		return len(set) == 0
+	}
+	// a member that is down at this instant died after its freeze: whether the instance still counts it (it re-reads
+	// the cluster state after freezing, through connections whose failures the fakes do not see) is unknown
+	for _, h := range frozen {
+		if snap[h] != nil && !snap[h].Up {
+			a.uncertain[h] = true
+		}
 	}
 	// members whose freeze reply was delayed may or may not count as frozen in the instance's view:
 	// the obligation is triggered only if no maximum exists under either reading
